@@ -23,6 +23,7 @@ pub struct Ctx<'a> {
     pub dump: Option<(u64, String)>,
     pub stats: Stats,
     pub digest: u64,
+    pub verif: String,
 }
 
 impl<'a> Ctx<'a> {
@@ -84,7 +85,7 @@ pub fn worker_main(chan: &Channel, a: WorkerArgs) {
     let mut i = a.from;
     while i < a.to {
         chan.send(&format!("{{\"t\":\"begin\",\"run\":{}}}", i));
-        let mut ctx = Ctx { chan, prop: a.prop.clone(), seed: a.seed, run: i, run_seed: run_seed(a.seed, &a.prop, i), step: 0, tier: a.tier.clone(), dump: a.dump.clone(), stats: Stats::default(), digest: 0 };
+        let mut ctx = Ctx { chan, prop: a.prop.clone(), seed: a.seed, run: i, run_seed: run_seed(a.seed, &a.prop, i), step: 0, tier: a.tier.clone(), dump: a.dump.clone(), stats: Stats::default(), digest: 0, verif: a.verif.clone() };
         let violations: Vec<Replay> = match a.prop.as_str() {
             "C03" => crate::c03::run(&mut ctx, &corpus),
             "C10" => crate::c10::run(&mut ctx, &corpus),
